@@ -99,17 +99,18 @@ def explore_program(p, backend, root, differential=True):
         is_src = f.startswith(pr.src + '/')
         proj.restore(built_snap, pr.bld)
         proj.restore(src_snap, pr.src)
+        # a symlink / hardlink product is the same file as its referent: writing to one modifies
+        # every name of that file (thorough run, K=3: a consumer of the referent re-ran, rightly)
+        same = {g for g in sources + inter if os.path.exists(g) and os.path.samefile(g, f)} | {f}
         proj.modify(f)
         states += 1
         rc, out, recs3 = pr.run(goals)
         nb += 1
         ran = {s['key'] for s in proj.steps_of(recs3)}
-        want = proj.downstream(steps, {f}) | ao_cone
-        allowed_extra = set()
-        if not is_src:
-            # a tool may legitimately re-run the producer of a hand-modified product (Ninja's
-            # deps log notices that the output is newer than its recorded dependencies)
-            allowed_extra = {producers[f]}
+        want = proj.downstream(steps, same) | ao_cone
+        # a tool may legitimately re-run the producer of a hand-modified product (Ninja's
+        # deps log notices that the output is newer than its recorded dependencies)
+        allowed_extra = {producers[g] for g in same if g in producers}
         if rc != 0:
             bad('incremental-build-fails', 'after modifying %s: %s' % (rel(f, pr), out[-200:]))
             continue
